@@ -445,6 +445,23 @@ pub fn check(c: &Case) -> Verdict {
             bad!(sig, "after a dump with {what}: {d}");
         }
     }
+    // ---- 5. the dumper runs out of descriptors ---------------------------------------------
+    // every open beyond a budget of k simultaneously open files fails with EMFILE: whichever step that
+    // hits (task listing, maps, the memory file, /proc copies), the target must be left running
+    for k in [0u8, 1, 2, 3, 5, 8] {
+        let mut w = make_writer(pid, &opts);
+        let mut dest = Dest::new(vec![], 0);
+        let o = with_fd_budget(k, || run_dump(&mut w, &mut dest));
+        dumps += 1;
+        match &o {
+            DumpOutcome::Panic(l, m) => return panic_verdict(l, m),
+            DumpOutcome::Ok(_) => classes.push("descriptor-budget:ok".into()),
+            DumpOutcome::Err(_) => classes.push("descriptor-budget:err".into()),
+        }
+        if let Err((sig, d)) = judge_alive(&t, &threads, &spec, &gone) {
+            bad!(sig, "after a dump taken with a budget of {k} open descriptors: {d}");
+        }
+    }
     count("dumps", dumps);
     classes.sort();
     classes.dedup();
@@ -622,7 +639,7 @@ pub fn run(ctx: &mut LaneCtx) {
         SubSpec {
             name: "faults-and-signals",
             cases: (64, 2_000),
-            rule: "per generated scenario (1..12 sleeper/parked/spinner/exiter threads and at most one sandbox-style helper thread running with a null stack pointer, signal schedule of up to 9 entries over 7 phase points (with extra weight on the attach of the signalled thread itself) x thread x {SIGUSR1,SIGHUP,SIGTRAP,SIGURG,SIGRTMIN+0..3} x count 1..5, StopProcess fail point on/off, a size limit (none / 0..120000 bytes / any) in three scenarios of ten, exiters cued at the threads-enumerated hook): one fault-free dump with the schedule, then EVERY destination call failing as I/O error and as panic (exhaustive per scenario), sampled fail-point subsets and two natural hard errors; after each of them the liveness predicate, after the first the signal accounting; every scenario is non-trivial; distinct = hash of scenario",
+            rule: "per generated scenario (1..12 sleeper/parked/spinner/exiter threads and at most one sandbox-style helper thread running with a null stack pointer, signal schedule of up to 9 entries over 7 phase points (with extra weight on the attach of the signalled thread itself) x thread x {SIGUSR1,SIGHUP,SIGTRAP,SIGURG,SIGRTMIN+0..3} x count 1..5, StopProcess fail point on/off, a size limit (none / 0..120000 bytes / any) in three scenarios of ten, exiters cued at the threads-enumerated hook): one fault-free dump with the schedule, then EVERY destination call failing as I/O error and as panic (exhaustive per scenario), sampled fail-point subsets, two natural hard errors and six dumps taken while the dumper may only open 0, 1, 2, 3, 5 or 8 more descriptors (every further open fails with EMFILE); after each of them the liveness predicate, after the first the signal accounting; every scenario is non-trivial; distinct = hash of scenario",
             strategy: case_strategy().boxed(),
             max_shrink_iters: 40,
             log_current: true,
